@@ -197,6 +197,9 @@ func exprText(x *Exec, v ssa.Value) string {
 
 func (x *Exec) nilCheckAddr(st *State, ins ssa.Instruction, a *Addr, src ssa.Value) {
 	ts := x.w.ts
+	if a.nilWhen != nil {
+		x.safety(st, "nil", ins, describe(src), ts.Not(a.nilWhen))
+	}
 	switch a.root {
 	case rField, rCell:
 		if a.ref.kind == kLeaf && len(a.ref.op) > 4 && a.ref.op[:4] == "ref_" {
@@ -297,6 +300,26 @@ func (x *Exec) bvOp(op string, a, b *Term) *Term { return x.w.ts.App(op, a.sort,
 func (x *Exec) binop(fr *Frame, in *ssa.BinOp, st *State) Value {
 	ts := x.w.ts
 	xt := in.X.Type()
+	// interior address compared with nil
+	if in.Op == token.EQL || in.Op == token.NEQ {
+		va, vb := x.get(fr, in.X), x.get(fr, in.Y)
+		var ad *Addr
+		if a, ok := va.(*Addr); ok && isNilConst(in.Y) {
+			ad = a
+		} else if b, ok := vb.(*Addr); ok && isNilConst(in.X) {
+			ad = b
+		}
+		if ad != nil {
+			isNil := ts.False()
+			if ad.nilWhen != nil {
+				isNil = ad.nilWhen
+			}
+			if in.Op == token.NEQ {
+				return ts.Not(isNil)
+			}
+			return isNil
+		}
+	}
 	// pointer / func / interface comparisons
 	a, b := x.term(fr, in.X), x.term(fr, in.Y)
 	if in.Op == token.EQL || in.Op == token.NEQ {
@@ -611,6 +634,10 @@ func (x *Exec) fieldAddr(fr *Frame, in *ssa.FieldAddr, st *State) Value {
 		return &Addr{root: rField, structT: structT, field: in.Field, ref: b, curT: ft}
 	case *Addr:
 		n := *b
+		if b.nilWhen != nil {
+			x.safety(st, "nil", in, describe(in.X), x.w.ts.Not(b.nilWhen))
+			n.nilWhen = nil
+		}
 		n.path = append(append([]pathStep{}, b.path...), pathStep{isField: true, field: in.Field, structT: structT})
 		n.curT = ft
 		return &n
